@@ -1,5 +1,6 @@
 import CssVerif.Lib.Proto
 import CssVerif.Model.Tok
+import CssVerif.Model.TokSpec
 open CssVerif CssVerif.Proto CssVerif.Tok CssVerif.Gen.C05
 
 def showStop : Stop → String
@@ -48,6 +49,15 @@ def handle (line : String) : String :=
       | none => "bad-op"
   | ["lower", t] => match decCps t with
       | some t => "OK " ++ encCps (pyLower t)
+      | none => "bad-op"
+  | ["spec", f, t] => match decCps t with
+      | some t =>
+        if f == "unescape" then "OK " ++ encCps (unescape t)
+        else if f == "stripcont" then "OK " ++ encCps (stripCont t)
+        else if f == "strval" then "OK " ++ encCps (stringValue t)
+        else if f == "safe" then (if safe t then "1" else "0")
+        else if f == "lc" then s!"{(lc t).1} {(lc t).2}"
+        else "bad-op"
       | none => "bad-op"
   | ["report", l, c, m, v] => match l.toNat?, c.toNat?, decCps m, decCps v with
       | some l, some c, some m, some v =>
